@@ -84,6 +84,8 @@ ThresholdOK(s) == 1 <= s.threshold /\ s.threshold <= Cardinality(s.attesters)
 
 ---------------------------------------------------------------------------
 (* C15: documented write sets, over abstract store keys                     *)
+\* abstract store keys: [k] for the single-valued entries, [k, id] for registry entries; `id` is always a
+\* record (TLC refuses to compare a string with a record when it normalises a set)
 K1(k)     == [k |-> k]
 K2(k, id) == [k |-> k, id |-> id]
 AllowedWrites(m) ==
@@ -97,13 +99,13 @@ AllowedWrites(m) ==
     [] m.type = "UpdatePauser" -> {K1("pauser")}
     [] m.type = "UpdateTokenController" -> {K1("tokCtl")}
     [] m.type = "UpdateMaxMessageBodySize" -> {K1("maxBody")}
-    [] m.type \in {"AddRemoteTokenMessenger", "RemoveRemoteTokenMessenger"} -> {K2("msgr", m.d)}
+    [] m.type \in {"AddRemoteTokenMessenger", "RemoveRemoteTokenMessenger"} -> {K2("msgr", [d |-> m.d])}
     [] m.type \in {"EnableAttester", "DisableAttester"} -> {K2("attester", m.att)}
     [] m.type = "UpdateSignatureThreshold" -> {K1("threshold")}
     [] m.type \in {"PauseBurningAndMinting", "UnpauseBurningAndMinting"} -> {K1("pausedBM")}
     [] m.type \in {"PauseSendingAndReceivingMessages", "UnpauseSendingAndReceivingMessages"} -> {K1("pausedSR")}
     [] m.type \in {"LinkTokenPair", "UnlinkTokenPair"} -> {K2("pair", [d |-> m.d, t |-> m.tok])}
-    [] m.type = "SetMaxBurnAmountPerMessage" -> {K2("limit", Lower(m.denom))}
+    [] m.type = "SetMaxBurnAmountPerMessage" -> {K2("limit", [denom |-> Lower(m.denom)])}
 
 SymDiff(X, Y) == (X \ Y) \cup (Y \ X)
 ScalarKeys == {"owner", "pending", "attMgr", "pauser", "tokCtl", "threshold", "pausedBM", "pausedSR", "maxBody", "nextNonce"}
@@ -112,8 +114,8 @@ KeysChanged(a, b) ==
   \cup {K2("attester", x) : x \in SymDiff(a.attesters, b.attesters)}
   \cup {K2("used", x) : x \in SymDiff(a.used, b.used)}
   \cup {K2("pair", [d |-> p.d, t |-> p.t]) : p \in SymDiff(a.pairs, b.pairs)}
-  \cup {K2("msgr", x.d) : x \in SymDiff(a.msgrs, b.msgrs)}
-  \cup {K2("limit", x.denom) : x \in SymDiff(a.limits, b.limits)}
+  \cup {K2("msgr", [d |-> x.d]) : x \in SymDiff(a.msgrs, b.msgrs)}
+  \cup {K2("limit", [denom |-> x.denom]) : x \in SymDiff(a.limits, b.limits)}
 
 ---------------------------------------------------------------------------
 (* Observation record of the specification itself                           *)
